@@ -79,6 +79,9 @@ class Report:
             else:
                 real.append(v)
         os.makedirs(os.path.join(VERIF, "evidence", "replay"), exist_ok=True)
+        for old in os.listdir(os.path.join(VERIF, "evidence", "replay")):
+            if old.startswith(self.pid + "-"):
+                os.remove(os.path.join(VERIF, "evidence", "replay", old))     # replay files of earlier runs of this property
         for v in kf:
             print("KNOWN-FINDING: property=%s rule=%s instance=%s %s" % (self.pid, v["rule"], v["instance"], v["msg"]))
         for i, v in enumerate(real):
